@@ -156,6 +156,10 @@ pub fn run_case(line: &str, dir: &str) -> String {
             run_enc(r)
         }
         "DEC" => run_dec(rest),
+        "DECP" => {
+            let (k, r) = rest.trim().split_once(' ').unwrap_or(("1", ""));
+            run_dec_piece(r, pu(k) as usize)
+        }
         "NAME" => {
             let cfg = raft_log::Config::new("d");
             let p = cfg.chunk_path(raft_log::ChunkId(pu(rest.trim())));
@@ -216,10 +220,15 @@ fn run_enc(rest: &str) -> String {
 struct CountReader<'a> {
     b: &'a [u8],
     pos: usize,
+    /// at most this many bytes per call (0 = no limit): a reader may return less than asked for
+    piece: usize,
 }
 impl<'a> std::io::Read for CountReader<'a> {
     fn read(&mut self, buf: &mut [u8]) -> std::io::Result<usize> {
-        let n = std::cmp::min(buf.len(), self.b.len() - self.pos);
+        let mut n = std::cmp::min(buf.len(), self.b.len() - self.pos);
+        if self.piece > 0 {
+            n = n.min(self.piece);
+        }
         buf[..n].copy_from_slice(&self.b[self.pos..self.pos + n]);
         self.pos += n;
         Ok(n)
@@ -227,8 +236,13 @@ impl<'a> std::io::Read for CountReader<'a> {
 }
 
 fn run_dec(rest: &str) -> String {
+    run_dec_piece(rest, 0)
+}
+
+/// DECP k hex: the same through a reader that hands out at most k bytes per call
+fn run_dec_piece(rest: &str, piece: usize) -> String {
     let b = unhex(rest.trim());
-    let mut r = CountReader { b: &b, pos: 0 };
+    let mut r = CountReader { b: &b, pos: 0, piece };
     let res = catch_unwind(AssertUnwindSafe(|| {
         <raft_log::WALRecord<HT> as raft_log::codeq::Decode>::decode(&mut r)
     }));
